@@ -24,6 +24,8 @@ type WorldOptions struct {
 	IDAlphabet  string // extra characters that may appear inside ids ("" = plain)
 	NullsInList bool
 	Mutations   bool
+	ListMax     int // upper bound for generated list lengths (default 3)
+	EntitiesMax int // upper bound for entities per Node type (default 4)
 }
 
 func DefaultWorldOptions() WorldOptions {
@@ -206,9 +208,16 @@ func NewWorld(rng *rand.Rand, opt WorldOptions) *World {
 	}
 	// entities
 	for ti, tn := range w.NodeType {
-		cnt := 1 + rng.Intn(4)
+		em := opt.EntitiesMax
+		if em <= 0 {
+			em = 4
+		}
+		cnt := 1 + rng.Intn(em)
 		for e := 0; e < cnt; e++ {
 			id := fmt.Sprintf("%s_%c", tn, 'a'+e)
+			if e >= 26 {
+				id = fmt.Sprintf("%s_%d", tn, e)
+			}
 			if opt.IDAlphabet != "" && rng.Intn(3) == 0 {
 				id += string(opt.IDAlphabet[rng.Intn(len(opt.IDAlphabet))]) + fmt.Sprint(ti)
 			}
@@ -238,9 +247,20 @@ func NewWorld(rng *rand.Rand, opt WorldOptions) *World {
 		}
 		return fake.Null()
 	}
+	rootLevel := false
 	mkValue := func(kind fieldKind, to string, salt string) fake.Val {
 		mkList := func(item func() fake.Val) fake.Val {
-			l := rng.Intn(4)
+			lm := opt.ListMax
+			if !rootLevel {
+				lm = 3 // only root lists get long: nested long lists multiply
+			}
+			if lm <= 0 {
+				lm = 3
+			}
+			l := rng.Intn(lm + 1)
+			if lm > 10 && rng.Intn(2) != 0 {
+				l = rng.Intn(4)
+			}
 			vs := make([]fake.Val, 0, l)
 			for i := 0; i < l; i++ {
 				v := item()
@@ -292,6 +312,7 @@ func NewWorld(rng *rand.Rand, opt WorldOptions) *World {
 		}
 	}
 	// roots
+	rootLevel = true
 	for si, s := range w.Services {
 		q := s.ensure("OBJECT", "Query")
 		nq := 1 + rng.Intn(3)
